@@ -9,6 +9,8 @@ import (
 	"crypto/x509"
 	"encoding/json"
 	"fmt"
+	"github.com/ProtonMail/go-crypto/openpgp/armor"
+	"github.com/ProtonMail/go-crypto/openpgp/packet"
 	"io"
 	"net/http"
 	"net/url"
@@ -103,6 +105,7 @@ type result struct {
 	status      int
 	recordThere bool // audit record present when the response arrived
 	err         error
+	sigHash     string // digest named inside a returned PGP signature packet ("" if not parsed)
 }
 
 var sinkStates = []string{"file", "file", "missing-dir", "path-is-directory", "dev-full", "amqp-refusing", "file+amqp-refusing",
@@ -221,8 +224,33 @@ func doSign(spec reqSpec, auditPath string) result {
 	if resp.StatusCode < 300 {
 		there = hasRecord(auditPath, spec.Filename)
 	}
-	io.Copy(io.Discard, resp.Body)
-	return result{spec: spec, status: resp.StatusCode, recordThere: there}
+	body2, _ := io.ReadAll(resp.Body)
+	res := result{spec: spec, status: resp.StatusCode, recordThere: there}
+	if resp.StatusCode < 300 && spec.SigType == "pgp" {
+		res.sigHash = pgpSignatureHash(body2)
+	}
+	return res
+}
+
+// pgpSignatureHash reads the digest algorithm out of a (binary or armored) signature packet.
+func pgpSignatureHash(blob []byte) string {
+	var r io.Reader = bytes.NewReader(blob)
+	if bytes.HasPrefix(bytes.TrimSpace(blob), []byte("-----BEGIN")) {
+		blk, err := armor.Decode(bytes.NewReader(blob))
+		if err != nil {
+			return ""
+		}
+		r = blk.Body
+	}
+	p, err := packet.Read(r)
+	if err != nil {
+		return ""
+	}
+	sig, ok := p.(*packet.Signature)
+	if !ok {
+		return ""
+	}
+	return map[crypto.Hash]string{crypto.MD5: "MD5", crypto.SHA1: "SHA1", crypto.SHA224: "SHA-224", crypto.SHA256: "SHA-256", crypto.SHA384: "SHA-384", crypto.SHA512: "SHA-512"}[sig.Hash]
 }
 
 func TestC06_ServerHistories(t *testing.T) {
@@ -254,10 +282,9 @@ func TestC06_ServerHistories(t *testing.T) {
 			}
 			if kind == "ok" && env.Pgp[s.Key] != nil && rapid.IntRange(0, 2).Draw(t, "pgp") == 0 {
 				// the key has an X.509 and a PGP certificate: the record names the one used
+				// (a SHA-1 PGP signature may be refused - the OpenPGP library does not make them -
+				// but if one is handed out, the record names the digest it was made with)
 				s.SigType = "pgp"
-				if s.Digest == "sha1" {
-					s.Digest = "sha256" // the OpenPGP library refuses to make SHA-1 signatures
-				}
 			}
 			specs = append(specs, s)
 		}
@@ -317,6 +344,9 @@ func TestC06_ServerHistories(t *testing.T) {
 				wantHash := map[string]string{"": "SHA-256", "sha1": "SHA1", "sha256": "SHA-256", "sha512": "SHA-512"}[r.spec.Digest]
 				fp := fmt.Sprintf("%x", sha1.Sum(env.Leaf[wantKey].Raw))
 				checks := map[string]any{"sig.keyname": wantKey, "sig.type": "ps", "sig.hash": wantHash, "sig.x509.fingerprint": fp, "client.name": clients[r.spec.Client%len(clients)].name, "client.ip": "127.0.0.1", "client.filename": r.spec.Filename}
+				if r.spec.SigType == "pgp" && r.sigHash != "" && a["sig.hash"] != r.sigHash {
+					failf("audit record of %s says digest %v, the PGP signature handed out was made with %s (record %v)", r.spec.Filename, a["sig.hash"], r.sigHash, a)
+				}
 				if r.spec.SigType == "pgp" {
 					checks["sig.type"] = "pgp"
 					delete(checks, "sig.x509.fingerprint") // naming the X.509 certificate as well is not wrong
@@ -328,7 +358,7 @@ func TestC06_ServerHistories(t *testing.T) {
 					}
 				}
 			} else {
-				if (r.spec.Kind == "ok" || r.spec.Kind == "alias") && sinkWorks(state) {
+				if (r.spec.Kind == "ok" || r.spec.Kind == "alias") && sinkWorks(state) && !(r.spec.SigType == "pgp" && r.spec.Digest == "sha1") {
 					failf("valid request %s failed with %d although the sink works", r.spec.Filename, r.status)
 				}
 				if len(recs) != 0 && sinkWorks(state) {
@@ -349,6 +379,55 @@ func TestC06_ServerHistories(t *testing.T) {
 		rec.Case(fmt.Sprintf("%s|%d|%v", state, conc, specs), fmt.Sprintf("server/%s/conc=%d", state, conc), nt)
 		if nt {
 			rec.Sample("server/"+state, map[string]any{"sink": state, "concurrency": conc, "requests": len(specs), "successful": ok2xx, "kinds": kinds(specs)})
+		}
+	})
+	setSink("file", workDir)
+}
+
+// TestC06_SinkFailsLater: the sink works for the first requests and breaks afterwards (its
+// directory goes away, a directory takes the file's place): from then on no signature may
+// be handed out, however many records were written before.
+func TestC06_SinkFailsLater(t *testing.T) {
+	rapid.Check(t, func(t *rapid.T) {
+		counter++
+		base := filepath.Join(workDir, fmt.Sprintf("later%d", counter))
+		dir := filepath.Join(base, "logs")
+		os.MkdirAll(dir, 0o755)
+		defer os.RemoveAll(base)
+		auditPath := setSink("file", dir)
+		before := rapid.IntRange(1, 3).Draw(t, "successful_requests_before")
+		fault := rapid.SampledFrom([]string{"directory-renamed", "directory-removed", "file-replaced-by-directory"}).Draw(t, "fault")
+		after := rapid.IntRange(1, 3).Draw(t, "requests_after")
+		desc := map[string]any{"successful_requests_before": before, "fault": fault, "requests_after": after}
+		failf := func(f string, args ...any) {
+			desc["error"] = fmt.Sprintf(f, args...)
+			evid.SaveCase("TestC06_SinkFailsLater", desc)
+			t.Fatalf("%s %v", desc["error"], desc)
+		}
+		rec.Case(fmt.Sprintf("later|%d|%s|%d", before, fault, after), "sink-fails-later/"+fault, true)
+		rec.Sample("sink-fails-later", desc)
+		key := rapid.SampledFrom(pipe.SigningKeys).Draw(t, "key")
+		for i := 0; i < before; i++ {
+			r := doSign(reqSpec{Kind: "ok", Key: key, Filename: fmt.Sprintf("l%d-b%d.ps1", counter, i)}, auditPath)
+			if r.err != nil || r.status >= 300 {
+				failf("request %d failed (%d %v) although the sink works", i, r.status, r.err)
+			}
+		}
+		switch fault {
+		case "directory-renamed":
+			os.Rename(dir, dir+".gone")
+		case "directory-removed":
+			os.RemoveAll(dir)
+		case "file-replaced-by-directory":
+			os.Remove(auditPath)
+			os.Mkdir(auditPath, 0o755)
+		}
+		for i := 0; i < after; i++ {
+			name := fmt.Sprintf("l%d-a%d.ps1", counter, i)
+			r := doSign(reqSpec{Kind: "ok", Key: key, Filename: name}, auditPath)
+			if r.err == nil && r.status < 300 && !hasRecord(auditPath, name) {
+				failf("request %d after the fault (%s) got %d and a signature, but the configured audit file holds no record of it", i, fault, r.status)
+			}
 		}
 	})
 	setSink("file", workDir)
